@@ -151,6 +151,25 @@ def check_template(ctx, rng, tpl, classes, sdir):
         ctx.res.distinct.add(("error-reported", cls))
         ctx.res.counts["error_reported"] += 1
         return
+    # --output <file>: the file must hold exactly what is printed without the option, also when it existed before (longer, shorter, other content)
+    opath = os.path.join(sdir, "out.guard")
+    pre = rng.choice([None, "", "# stale\n" * 4000, "rule stale_rule {\n    a == 1\n}\n" * 300, out + "rule leftover {\n    b exists\n}\n"])
+    if pre is None:
+        if os.path.exists(opath):
+            os.unlink(opath)
+    else:
+        open(opath, "w").write(pre)
+    c2 = subprocess.run([core.CLI_BIN, "rulegen", "-t", path, "-o", opath], stdout=subprocess.PIPE, stderr=subprocess.PIPE, timeout=120)
+    ctx.res.counts["output_file_runs"] += 1
+    try:
+        written = open(opath).read()
+    except OSError:
+        written = None
+    if c2.returncode == 0 and written != out:
+        how = "missing" if written is None else ("stale tail kept" if written.startswith(out) else "differs")
+        ctx.violation("rulegen:output-file:%s" % how.replace(" ", "-"), "`rulegen -o file` (file %s before) left %s in the file: %d bytes vs %d bytes on stdout" % (
+            "absent" if pre is None else "%d bytes" % len(pre), how, len(written or ""), len(out)), dict(case, pre=pre))
+        return
     want_names = expected_rule_names(tpl)
     if not out.strip():
         if want_names:
